@@ -657,10 +657,14 @@ func (index *setIndex) CheckIntegrity(ctx MutateContext, fix bool, errorSink fun
 					}
 				}
 			} else {
-				// If key has no values, delete the key
-				if err := cursor.Delete(); err != nil {
-					return err
+				// a plain key is not an index entry; remove it, but only when fixing
+				if fix {
+					if err := cursor.Delete(); err != nil {
+						return err
+					}
 				}
+				errorSink(errors.Errorf("for index on %s.%s, index key %s is not a value bucket",
+					index.symbol.GetStore().GetEntityType(), index.GetSymbol().GetName(), string(key)), fix)
 			}
 		}
 
@@ -681,9 +685,15 @@ func (index *setIndex) CheckIntegrity(ctx MutateContext, fix bool, errorSink fun
 		valuesCursor := setBucket.Cursor()
 		for val, _ := valuesCursor.First(); val != nil; val, _ = valuesCursor.Next() {
 			_, value := GetTypeAndValue(val)
-			idxBucket := index.getIndexBucket(tx, value)
 			key := PrependFieldType(TypeString, id)
-			if !idxBucket.IsKeyPresent(key) {
+			// only create the index bucket for a missing value when fixing
+			var idxBucket *TypedBucket
+			if fix {
+				idxBucket = index.getIndexBucket(tx, value)
+			} else if indexBaseBucket := Path(tx, index.indexPath...); indexBaseBucket != nil {
+				idxBucket = indexBaseBucket.GetBucket(string(value))
+			}
+			if idxBucket == nil || !idxBucket.IsKeyPresent(key) {
 				if fix {
 					if err := idxBucket.Put(key, nil); err != nil {
 						return err
